@@ -49,6 +49,11 @@ type zzC06Entry struct {
 	K  string   `json:"k"`
 	IP string   `json:"ip"`
 	T  []string `json:"t"`
+	// MC: the answer (a canonical name) is written with every label in
+	// another letter case than the lower-case form.
+	MC bool `json:"mc"`
+	// DS is the spelling variant of the pattern (normalised by the code).
+	DS int `json:"ds,omitempty"`
 }
 
 type zzC06Out struct {
@@ -68,6 +73,8 @@ type zzC06Vec struct {
 	Tab     []zzC06Entry
 	Ordered bool
 	Verd    map[string]*zzC06Verdict
+	// VerdC: additional outcomes when CNAME answers are in another case.
+	VerdC map[string]*zzC06Verdict
 }
 
 type zzC06Header struct {
@@ -79,6 +86,7 @@ type zzC06RawVec struct {
 	Hdr int               `json:"hdr"`
 	T   []json.RawMessage `json:"t"`
 	V   []json.RawMessage `json:"v"`
+	VC  []json.RawMessage `json:"vc"`
 	O   int               `json:"o"`
 }
 
@@ -93,7 +101,7 @@ func zzC06Decode(hdr *zzC06Header, raw *zzC06RawVec) (v *zzC06Vec, err error) {
 		return hdr.Names[i-1]
 	}
 
-	v = &zzC06Vec{Ordered: raw.O == 1, Verd: map[string]*zzC06Verdict{}}
+	v = &zzC06Vec{Ordered: raw.O == 1}
 	for _, rt := range raw.T {
 		var tup []any
 		if err = json.Unmarshal(rt, &tup); err != nil || len(tup) != 5 {
@@ -109,7 +117,25 @@ func zzC06Decode(hdr *zzC06Header, raw *zzC06RawVec) (v *zzC06Vec, err error) {
 		})
 	}
 
-	for _, rv := range raw.V {
+	if v.Verd, err = zzC06DecodeVerdicts(name, raw.V); err != nil {
+		return nil, err
+	}
+
+	if len(raw.VC) > 0 {
+		if v.VerdC, err = zzC06DecodeVerdicts(name, raw.VC); err != nil {
+			return nil, err
+		}
+	}
+
+	return v, nil
+}
+
+func zzC06DecodeVerdicts(
+	name func(i int) (n []string),
+	raws []json.RawMessage,
+) (m map[string]*zzC06Verdict, err error) {
+	m = map[string]*zzC06Verdict{}
+	for _, rv := range raws {
 		var tup []json.RawMessage
 		if err = json.Unmarshal(rv, &tup); err != nil || len(tup) != 3 {
 			return nil, fmt.Errorf("bad verdict %s: %v", rv, err)
@@ -137,10 +163,10 @@ func zzC06Decode(hdr *zzC06Header, raw *zzC06RawVec) (v *zzC06Vec, err error) {
 			vd.Outs = append(vd.Outs, out)
 		}
 
-		v.Verd[zzC06Key(vd.H, qt)] = vd
+		m[zzC06Key(vd.H, qt)] = vd
 	}
 
-	return v, nil
+	return m, nil
 }
 
 var zzC06PassOnly = []zzC06Out{{R: "pass", Canon: []string{}, IPs: []string{}, Up: true}}
@@ -227,8 +253,25 @@ type zzC06RW struct {
 	Answer string `json:"answer"`
 }
 
+// zzC06OtherCase writes a name so that every label differs in case from its
+// lower-case form: all upper case, or the first letter of every label.
+func zzC06OtherCase(name string, variant int) (s string) {
+	if variant%2 == 0 {
+		return strings.ToUpper(name)
+	}
+
+	ls := strings.Split(name, ".")
+	for i, l := range ls {
+		if l != "" {
+			ls[i] = strings.ToUpper(l[:1]) + l[1:]
+		}
+	}
+
+	return strings.Join(ls, ".")
+}
+
 func (c *zzC06Conc) rewrite(e *zzC06Entry) (rw zzC06RW) {
-	rw.Domain = zzC06Name(e.N)
+	rw.Domain = zzC06Spell(zzC06Name(e.N), e.DS)
 	if e.W {
 		rw.Domain = "*." + rw.Domain
 	}
@@ -240,6 +283,9 @@ func (c *zzC06Conc) rewrite(e *zzC06Entry) (rw zzC06RW) {
 		rw.Answer = e.K
 	default:
 		rw.Answer = zzC06Name(e.T)
+		if e.MC {
+			rw.Answer = zzC06OtherCase(rw.Answer, len(e.T)+len(e.N)+e.DS)
+		}
 	}
 
 	return rw
@@ -356,6 +402,8 @@ type zzC06Srv struct {
 	handlers map[string]http.HandlerFunc
 	addr     string
 	cur      []zzC06RW
+	// updates counts the tables reached by updates in place.
+	updates int
 }
 
 func zzC06NewSrv(t *testing.T, conc *zzC06Conc) (z *zzC06Srv) {
@@ -436,10 +484,52 @@ func (z *zzC06Srv) call(key string, body any) (code int, resp string) {
 	return w.Code, w.Body.String()
 }
 
-// setTable replaces the rewrite table through the HTTP API and reads it back.
+// setTable changes the rewrite table of the LIVE server to rws through the
+// HTTP API and reads it back.  A table of the same length is reached by
+// updating the entries that differ in place (PUT .../update), any other one
+// by deleting and adding.
 func (z *zzC06Srv) setTable(rws []zzC06RW) (err error) {
+	norm := func(rw zzC06RW) (n zzC06RW) { return zzC06RW{Domain: strings.ToLower(rw.Domain), Answer: rw.Answer} }
+	dup := false
+	for i := range z.cur {
+		for j := range z.cur {
+			dup = dup || i != j && norm(z.cur[i]) == norm(z.cur[j])
+		}
+	}
+
+	if len(rws) == len(z.cur) && len(rws) > 0 && !dup {
+		for i, rw := range rws {
+			if norm(z.cur[i]) == norm(rw) {
+				continue
+			}
+
+			body := map[string]any{"target": norm(z.cur[i]), "update": rw}
+			if code, resp := z.call("PUT /control/rewrite/update", body); code != http.StatusOK {
+				return fmt.Errorf("update %v: %d %s", body, code, resp)
+			}
+
+			// The entry at i may now equal a later one that is still to be
+			// replaced: an update of that one would hit i again.
+			z.cur[i] = rw
+			for j := i + 1; j < len(z.cur); j++ {
+				if norm(z.cur[j]) == norm(rw) && norm(rws[j]) != norm(rw) {
+					return z.replaceTable(rws)
+				}
+			}
+		}
+
+		z.updates++
+
+		return z.checkList(rws)
+	}
+
+	return z.replaceTable(rws)
+}
+
+func (z *zzC06Srv) replaceTable(rws []zzC06RW) (err error) {
 	for _, rw := range z.cur {
-		if code, body := z.call("POST /control/rewrite/delete", rw); code != http.StatusOK {
+		del := zzC06RW{Domain: strings.ToLower(rw.Domain), Answer: rw.Answer}
+		if code, body := z.call("POST /control/rewrite/delete", del); code != http.StatusOK {
 			return fmt.Errorf("delete %v: %d %s", rw, code, body)
 		}
 	}
@@ -451,7 +541,11 @@ func (z *zzC06Srv) setTable(rws []zzC06RW) (err error) {
 		}
 	}
 
-	z.cur = rws
+	return z.checkList(rws)
+}
+
+func (z *zzC06Srv) checkList(rws []zzC06RW) (err error) {
+	z.cur = append([]zzC06RW{}, rws...)
 	code, body := z.call("GET /control/rewrite/list", nil)
 	var got []zzC06RW
 	if code != http.StatusOK || json.Unmarshal([]byte(body), &got) != nil || len(got) != len(rws) {
@@ -459,7 +553,7 @@ func (z *zzC06Srv) setTable(rws []zzC06RW) (err error) {
 	}
 
 	for i := range got {
-		if got[i] != rws[i] {
+		if got[i].Domain != strings.ToLower(rws[i].Domain) || got[i].Answer != rws[i].Answer {
 			return fmt.Errorf("list differs at %d: %v vs %v", i, got[i], rws[i])
 		}
 	}
@@ -514,7 +608,8 @@ func (z *zzC06Srv) query(name string, qtype uint16, bound time.Duration) (o zzC0
 		switch rr := rr.(type) {
 		case *dns.CNAME:
 			if i == 0 && strings.EqualFold(rr.Hdr.Name, name+".") {
-				o.CNAME = strings.TrimSuffix(rr.Target, ".")
+				// Names are compared case-insensitively.
+				o.CNAME = strings.ToLower(strings.TrimSuffix(rr.Target, "."))
 			} else {
 				odd = append(odd, "cname@"+fmt.Sprint(i)+":"+rr.String())
 			}
@@ -672,10 +767,28 @@ func TestZZVerifC06Pipeline(t *testing.T) {
 			ords = append(ords, rev)
 		}
 
-		for oi, order := range ords {
+		npass := len(ords)
+		if v.VerdC != nil {
+			// One more pass: the table as given with the CNAME answers in
+			// another letter case and the patterns in seeded spellings.
+			npass++
+		}
+
+		for oi := 0; oi < npass; oi++ {
+			tab, cased, order := v.Tab, oi >= len(ords), idOrder
+			if cased {
+				tab = append([]zzC06Entry{}, v.Tab...)
+				for i := range tab {
+					tab[i].DS = n + i
+					tab[i].MC = tab[i].K == "cname"
+				}
+			} else {
+				order = ords[oi]
+			}
+
 			rws := make([]zzC06RW, len(order))
 			for i, j := range order {
-				rws[i] = conc.rewrite(&v.Tab[j])
+				rws[i] = conc.rewrite(&tab[j])
 			}
 
 			if err = z.setTable(rws); err != nil {
@@ -690,6 +803,9 @@ func TestZZVerifC06Pipeline(t *testing.T) {
 				want := zzC06PassOnly
 				if vd, ok := v.Verd[zzC06Key(q.h, q.qt)]; ok {
 					want = vd.Outs
+					if vc, okc := v.VerdC[zzC06Key(q.h, q.qt)]; cased && okc {
+						want = append(append([]zzC06Out{}, want...), vc.Outs...)
+					}
 				}
 
 				name := zzC06Spell(zzC06Name(q.h), n+oi+qi)
@@ -710,7 +826,7 @@ func TestZZVerifC06Pipeline(t *testing.T) {
 
 				// Reproduce: same table set again, the query alone, long bound.
 				rec := map[string]any{
-					"tab": v.Tab, "order": order, "table": rws, "h": q.h, "qt": q.qt, "query": name,
+					"tab": tab, "order": order, "table": rws, "h": q.h, "qt": q.qt, "query": name, "cased": cased,
 					"want": want,
 				}
 				exp := []zzC06Obs{}
@@ -720,7 +836,7 @@ func TestZZVerifC06Pipeline(t *testing.T) {
 
 				rec["expected"] = exp
 				if ok {
-					if err = z.setTable(rws); err != nil {
+					if err = z.replaceTable(rws); err != nil {
 						setupErrs++
 
 						return
@@ -759,7 +875,7 @@ func TestZZVerifC06Pipeline(t *testing.T) {
 
 	w.put(map[string]any{
 		"kind": "summary", "vectors": n, "orderings": orders, "evals": evals, "bad": bad, "hangs": hangs,
-		"flaky": flaky, "setup_errors": setupErrs, "classes": classes,
+		"flaky": flaky, "setup_errors": setupErrs, "classes": classes, "tables_reached_by_update": z.updates,
 	})
 }
 
@@ -834,6 +950,7 @@ func zzC06BTable(rng *rand.Rand) (tab []zzC06Entry, pool [][]string) {
 
 		e := &tab[len(tab)-1]
 		e.T = []string{}
+		e.DS = rng.Intn(3)
 		switch k := rng.Intn(20); {
 		case k < 5:
 			e.K, e.IP = "ip4", zzC06BPick(rng, zzC06BV4)
@@ -857,6 +974,9 @@ func zzC06BTable(rng *rand.Rand) (tab []zzC06Entry, pool [][]string) {
 		default:
 			e.K, e.T = "cname", zzC06BName(rng)
 		}
+
+		// A quarter of the canonical names are written in another case.
+		e.MC = e.K == "cname" && rng.Intn(4) == 0
 	}
 
 	return tab, pool
